@@ -73,7 +73,7 @@ CHECKS = [
           "C11.connection_error_typed when errors are mapped). PARTIAL: 'eventually returns a genuine result' = the loop returns once one attempt "
           "is answered + the next attempt is enabled on a healed connection; that the outage ends and the scheduler is fair are assumptions. "
           "Tie: regenerated skeletons of backoff.next, tryReconnect, handleWsConn, handleRpcCall, options; differential run of the real backoff.next; "
-          "reconnect scenarios through the proxy (outage with k refused redials x error mapping, flapping server, no-reconnect, keepalive after heal) "
+          "reconnect scenarios through the proxy (outage with k refused redials x error mapping, flapping server, no-reconnect, keepalive after heal — a timed healthy-link verdict, reported when a second run of the scenario fails too) "
           "whose redial events with hook times are replayed through Jrpc.Redial and whose retry attempts are compared with retryLoop.",
   "design_ref": "DESIGN.md §6 C05",
   "note": TB + " Float arithmetic is modelled exactly; only interval membership with a stated slack is compared.",
@@ -265,7 +265,7 @@ CHECKS = [
           "(idle / during a call / under local traffic) whose pending call must fail with the typed connection error and whose redial must "
           "start within 4 timeouts; the client connection's timestamped hook trace (activity, renewals, re-arms, read failures, timer firings) "
           "is replayed through the model's acceptor: no failure before its armed deadline, no renewal without an activity to consume."
-          " Also: a peer silent from the first moment of a connection, keepalive after a reconnect, a peer slow to read for two seconds; healthy-link verdicts are conclusive only if a lag probe and the proxy's frame log show a responsive environment. Fourth round: a redial that completes shortly before the idle timer armed at the loss is due (F36; schedule gated by the lag probe).",
+          " Also: a peer silent from the first moment of a connection, keepalive after a reconnect, a peer slow to read for two seconds; healthy-link verdicts are conclusive only if a lag probe (scheduler and hook runtime) and the proxy's frame log show a responsive environment, and are reported when a second run of the same scenario fails too (fw.Confirmed; differences between trace and model are reported from the first run). Fourth round: a redial that completes shortly before the idle timer armed at the loss is due (F36; schedule gated by the lag probe).",
   "design_ref": "DESIGN.md §6 C17",
   "note": TB + " PARTIAL: G and E are environment assumptions; wall-clock behaviour is sampled by the scenarios, not proved.",
   "technique": "Lean 4 theorems + translation theorems over the regenerated MiniGo programs (Deadline) (two invariants by induction over timed events) + regenerated skeleton facts + timed hook-trace acceptance + scenario monitors"},
